@@ -14,6 +14,6 @@ for id in $ids; do
   find $R/src -name "*.rs" -exec touch {} +
   o=$(./check $p --tier quick 2>&1); rc=$?
   git -C $R checkout -- .
-  first=$(echo "$o" | grep -A1 "^VIOLATION" | sed -n 2p | cut -c1-160 | tr '"\\' "' ")
+  first=$(echo "$o" | grep -a -A1 "^VIOLATION" | sed -n 2p | python3 -c 'import sys; print(sys.stdin.buffer.read().decode("utf-8", "replace")[:160].replace("\n", " "), end="")' | tr '"\\' "' ")
   echo "{\"id\": \"$id\", \"check\": \"$p\", \"rc\": $rc, \"head\": \"$(git -C $R rev-parse --short HEAD)\", \"first\": \"$first\"}" | tee -a seeded/matrix.jsonl
 done
